@@ -367,6 +367,23 @@ def run(ctx):
     ctx.check(ok, "R02.5", opt.short, "sequential-forwards-arguments", message="_optimize does not forward n_trials/catch/callbacks unchanged", how="positional arguments")
 
 
+    # public wrappers forward their arguments unchanged
+    tf = p.func("optuna.study.study.Study.tell")
+    tc = [c for c in own_nodes(tf.node) if isinstance(c, ast.Call) and dotted(c.func) == "_tell_with_warning"]
+    want = {"study": "self", "trial": "trial", "value_or_values": "values", "state": "state", "skip_if_finished": "skip_if_finished"}
+    ok = len(tc) == 1 and {k.arg: norm(k.value) for k in tc[0].keywords} == want and not tc[0].args
+    ctx.check(ok, "R02.5", tf.short, "tell-forwards-arguments", message="Study.tell does not forward (trial, values, state, skip_if_finished) unchanged to _tell_with_warning",
+              how="keyword provenance")
+    of = p.func("optuna.study.study.Study.optimize")
+    oc = [c for c in own_nodes(of.node) if isinstance(c, ast.Call) and dotted(c.func) == "_optimize"]
+    ok = len(oc) == 1
+    if ok:
+        kw = {k.arg: norm(k.value) for k in oc[0].keywords}
+        ok = kw.get("n_trials") == "n_trials" and kw.get("callbacks") == "callbacks" and kw.get("func") == "func" and kw.get("study") == "self" \
+            and kw.get("n_jobs") == "n_jobs" and "catch" in kw.get("catch", "")
+    ctx.check(ok, "R02.5", of.short, "optimize-forwards-arguments", message="Study.optimize does not forward n_trials/n_jobs/catch/callbacks to _optimize", how="keyword provenance")
+
+
 def _func_at(p: Program, site: str) -> str:
     rel, _, ln = site.rpartition(":")
     try:
